@@ -416,6 +416,11 @@ def hadamard_sum(ts, algorithm="exact", eps=None):
 
         t = ts[m].decompress_tucker_factors()
         t._cp_to_tt()
+        # Outer TT ranks > 1 (e.g. left by products with CP cores) are summed out
+        if t.cores[0].shape[0] > 1:
+            t.cores[0] = t.cores[0].sum(dim=0, keepdim=True)
+        if t.cores[-1].shape[-1] > 1:
+            t.cores[-1] = t.cores[-1].sum(dim=-1, keepdim=True)
         tstt.append(t)
     ts = tstt
 
@@ -441,6 +446,12 @@ def hadamard_sum(ts, algorithm="exact", eps=None):
 
     N = ts[0].dim()
     thiscores = get_tensor([t.cores[0] for t in ts])
+    if N == 1:
+        return (
+            tn.Tensor([c.reshape(c.shape[0], -1, c.shape[-1]) for c in thiscores])
+            .torch()
+            .item()
+        )
 
     for n in range(1, N):
         nextcores = get_tensor([t.cores[n] for t in ts])
